@@ -920,35 +920,40 @@ def do_deepcopy(w, d, op, p):
 
 def do_to(w, d, op, p):
     how = op.get("how", "to_cpu")
-    try:
-        if how in ("to_cpu", "cpu"):
-            for attempt in (0, 1):
-                try:
-                    d.model = d.model.to("cpu") if how == "to_cpu" else d.model.cpu()
-                    break
-                except RuntimeError as e:
-                    # torch refuses to swap a wrapper-subclass parameter while something else still references it
-                    if "swap" not in str(e) or attempt:
-                        w.probe("move_unavailable")
-                        return "unavailable"
-                    gc.collect()
-            d.oplog.append("to_cpu")
-        elif how == "dtype":
-            new = op["dtype"]
-            q = d.qcfg or {}
-            if unsafe_stack_config(d.model, q.get("weights"), q.get("activations"), new):
-                w.probe("excluded_to_dtype")
-                return "skipped"
-            d.model = d.model.to(DTYPES[new])
-            d.dtype = new
-            d.stamp += 1
-        else:
+    if how == "dtype":
+        new = op["dtype"]
+        q = d.qcfg or {}
+        if unsafe_stack_config(d.model, q.get("weights"), q.get("activations"), new):
+            w.probe("excluded_to_dtype")
             return "skipped"
-    except ValueError as e:
-        # documented refusal: dtype change of packed low-bit weights
-        w.probe("to_dtype_refused")
-        d.broken = how == "dtype"
-        return "refused"
+        move = lambda: d.model.to(DTYPES[new])
+    elif how == "to_cpu":
+        move = lambda: d.model.to("cpu")
+    elif how == "cpu":
+        move = lambda: d.model.cpu()
+    else:
+        return "skipped"
+    for attempt in (0, 1):
+        try:
+            d.model = move()
+            break
+        except ValueError:
+            # documented refusal: dtype change of packed low-bit weights (the model may be half converted)
+            w.probe("to_dtype_refused")
+            d.broken = how == "dtype"
+            return "refused"
+        except RuntimeError as e:
+            # torch refuses to swap a wrapper-subclass parameter while something else still references it
+            if "swap" not in str(e) or attempt:
+                w.probe("move_unavailable")
+                d.broken = how == "dtype"
+                return "unavailable"
+            gc.collect()
+    if how == "dtype":
+        d.dtype = op["dtype"]
+        d.stamp += 1
+    else:
+        d.oplog.append("to_cpu")
     check_weights_invariant(w, d, how, p)
     return "ok"
 
